@@ -27,7 +27,7 @@ func init() {
 		},
 		Quick:    250000,
 		Thorough: 4000000,
-		Require:  []string{"handshake.slow", "received.peerPing", "received.strayAck", "keepalive.pingSent", "tick.exactlyAtPeriod", "tick.foundInactive", "pong.superseded"},
+		Require:  []string{"stream.readEndsInsideNextFrame", "handshake.slow", "received.peerPing", "received.strayAck", "keepalive.pingSent", "tick.exactlyAtPeriod", "tick.foundInactive", "pong.superseded"},
 		Assume: []string{
 			"keep-alive counts consecutive inactivity detections (a tick with now > last receive + period) since the last reset; the literal 'more than maxRetries pings unanswered' is never satisfied by any implementation that sends maxRetries pings",
 			"a pong for a superseded ping is accepted as either a reset or not (it is a received message; the statement does not say which wins)",
@@ -117,9 +117,23 @@ func c18Run(e *Env, keepalive bool) {
 	closed := func() bool { return w.API.Context().Err() != nil }
 	nonce := 0
 	pongForCurrent := false
+	var streamTail []byte // stream transports: the rest of a frame whose head arrived with the previous read
 	deliver := func(m *WMsg, label string, reset int) {
 		// reset: 0 = no effect on the count (n/a), 1 = resets, 2 = either
 		it := w.Queue(m, label)
+		if !IsDatagram(tr) {
+			// the read may end in the middle of the next frame: the complete message in it still is a received message
+			raw := append(append([]byte(nil), streamTail...), EncodeTCP(m)...)
+			streamTail = nil
+			if t.Chance(1, 3) {
+				next := EncodeTCP(&WMsg{Code: 1, Token: []byte{0x57, byte(len(label))}, Opts: []WOpt{{Num: OptURIPath, Val: []byte("tail")}}})
+				k := 1 + t.Choose(len(next)-1)
+				raw = append(raw, next[:k]...)
+				streamTail = next[k:]
+				e.Probe("stream.readEndsInsideNextFrame")
+			}
+			it.Raw = raw
+		}
 		e.Logf("peer->ep %s", label)
 		w.Emit(it, false)
 		lastRx = e.Now()
